@@ -74,7 +74,8 @@ def run(R, replay=None):
     R.rule = ("(1) _get_filter over every (include, exclude) pair of subsets of a 6-element universe {B001, two blacklist ids, two "
               "plugin ids, an unknown id} - exhaustive - against the model and the filter algebra; (2) programs x random selections "
               "(plugin ids, blacklist ids, B001, complements): findings under the selection vs the selected findings of the "
-              "unrestricted run; (3) contradictory selections must be rejected; non-trivial = the selection is not the default")
+              "unrestricted run; (3) contradictory selections must be rejected; non-trivial = the selection is not the default"
+              "; every hand-written program under every user configuration incl. partial shared blocks; one import statement per name of every import rule with every id targeted")
     # ---- (1) exhaustive small universe
     U = ["B001", "B301", "B401", "B101", "B602", "B999"]
     subsets = [list(c) for k in range(len(U) + 1) for c in itertools.combinations(U, k)]
